@@ -153,6 +153,73 @@ def _admits_object(m):
     raise ShapeError("_ast_to_ir: ndarray admission test not recognised: %r" % tests)
 
 
+def fallback_flag():
+    """each of the three `fn(*...)` calls sits in a try whose only handler is `except Exception` (or bare)"""
+    m = astlib.module("klongpy/interpreter.py")
+    cls = astlib.find_class(m, "KlongInterpreter")
+    n = 0
+    for name in ("eval", "__call__"):
+        f = astlib.find_func(cls, name)
+        for t in ast.walk(f):
+            if not isinstance(t, ast.Try):
+                continue
+            calls = [c for st in t.body for c in ast.walk(st)
+                     if isinstance(c, ast.Call) and isinstance(c.func, ast.Name) and c.func.id == "fn"]
+            if not calls:
+                continue
+            if len(t.handlers) != 1 or t.finalbody or t.orelse:
+                return False
+            ty = t.handlers[0].type
+            if not (ty is None or (isinstance(ty, ast.Name) and ty.id in ("Exception", "BaseException"))):
+                return False
+            n += len(calls)
+    return n == 3
+
+
+def stateless_flag():
+    """compile_expr hands the IR straight to the backend and neither it nor compile_expr_ir keeps anything across
+    calls (no decorator, no global, no store into a container, no .get/.setdefault lookup)"""
+    def clean(fn):
+        if fn.decorator_list:
+            return False
+        for n in ast.walk(fn):
+            if isinstance(n, (ast.Global, ast.Nonlocal)):
+                return False
+            if isinstance(n, ast.Subscript) and isinstance(n.ctx, (ast.Store, ast.Del)):
+                return False
+            if isinstance(n, ast.Call) and isinstance(n.func, ast.Attribute) and n.func.attr in ("get", "setdefault", "pop", "update"):
+                return False
+        return True
+    m = astlib.module("klongpy/compiler.py")
+    ce = astlib.find_func(m, "compile_expr")
+    if not clean(ce):
+        return False
+    last = ce.body[-1]
+    if not (isinstance(last, ast.Return) and ast.unparse(last.value) == "klong._backend.compile_expr_ir(ir, var_syms)"):
+        return False
+    a2i = astlib.find_func(m, "_ast_to_ir")
+    if a2i.decorator_list or any(isinstance(n, (ast.Global, ast.Nonlocal)) for n in ast.walk(a2i)):
+        return False
+    for rel, cls in (("klongpy/backends/numpy_backend.py", "NumpyBackendProvider"), ("klongpy/backends/torch_backend.py", "TorchBackendProvider")):
+        f = astlib.find_func(astlib.find_class(astlib.module(rel), cls), "compile_expr_ir")
+        if not clean(f):
+            return False
+        last = f.body[-1]
+        if not (isinstance(last, ast.Return) and ast.unparse(last.value) == "(ns['_expr'], var_syms)"):
+            return False
+        if not any(isinstance(n, ast.Assign) and ast.unparse(n.targets[0]) == "ns" and isinstance(n.value, ast.Dict) for n in f.body):
+            return False
+    return True
+
+
+def _flag(fn):
+    try:
+        v, why = astlib.try_flag(fn)
+    except Exception as e:  # any unexpected shape: fail closed
+        v, why = False, repr(e)
+    return bool(v), why
+
+
 def _coq_tbl(tbl):
     return astlib.coq_list(["(%s, %s)" % (astlib.coq_string(k), astlib.coq_string(v)) for k, v in tbl])
 
@@ -202,6 +269,9 @@ def generate(prop="C05"):
     out.append(_coq_tables("np_tables", s, npt if s is not None else None))
     out.append(_coq_tables("torch_tables", s, tot if s is not None else None))
     out.append("Definition call_guard : bool := %s." % astlib.coq_bool(g))
+    for name, fn in (("fallback_catches_all", fallback_flag), ("compile_is_stateless", stateless_flag)):
+        v, w = _flag(fn)
+        out.append("Definition %s : bool := %s.%s" % (name, astlib.coq_bool(v), "" if not w else "  (* %s *)" % w.replace("*)", "* )")))
     return "\n".join(out) + "\n"
 
 
@@ -659,6 +729,9 @@ def corr_cases(rng, tier):
         t = rand_tree_var(rng, rng.choice([2, 3]))
         e0, e1 = envs()
         out.append({"text": text_of(t), "env0": e0, "env1": e1, "names": ["a", "b"]})
+    # literal-kind twins one after the other in the same worker process, and literals that overflow to infinity
+    for e in ["a*1.0", "a*1", "a+2", "a+2.0", "b-0", "b-0.0", "+/(b*2)", "+/(b*2.0)", "a=3.0", "a=3", "a+1e999", "b<1e999", "1e999-a"]:
+        out.append({"text": e, "env0": ["a::3", "b::[1 2 3]"], "env1": ["a::3", "b::[1 2 3]"], "names": ["a", "b"]})
     # a variable that is not defined at compile time, and three variables
     out.append({"text": "a+c", "env0": ["a::1"], "env1": ["a::1"], "names": ["a", "c"]})
     out.append({"text": "(c*a)+(b*c)", "env0": ["a::1", "b::[1 2]", "c::2.5"], "env1": ["a::[1 2]", "b::3", "c::2"], "names": ["a", "b", "c"]})
@@ -994,6 +1067,66 @@ def check_diff(chk, rng, tier, backend, scale=1):
     return bad
 
 
+# ---------------------------------------------------------------- targeted families (no ^ and no %: any difference is a violation)
+TWIN_LITS = [("1", "1.0"), ("0", "0.0"), ("2", "2.0"), ("10", "10.0")]
+
+
+def twin_programs():
+    """expressions that differ ONLY in a numeric literal written as integer or as real, evaluated one after the
+    other in the same interpreter and process, both orders: a compilation must not leak from one to the other"""
+    progs = []
+    for op in ["+", "-", "*", "<", ">", "="]:
+        for li, lr in TWIN_LITS:
+            forms = [("a%s%s" % (op, li), "a%s%s" % (op, lr)), ("%s%sa" % (li, op), "%s%sa" % (lr, op)),
+                     ("+/(a%s%s)" % (op, li), "+/(a%s%s)" % (op, lr))]
+            for v in ["3", "[1 2 3]", "2.5"]:
+                for e1, e2 in forms:
+                    for x, y in ((e1, e2), (e2, e1)):
+                        progs.append([("a::" + v, False), (x, True), (y, True)])
+                for x, y in ((li, lr), (lr, li)):
+                    progs.append([("f::{,x%s%s}" % (op, x), False), ("g::{,x%s%s}" % (op, y), False),
+                                  ("f(%s)" % v, True), ("g(%s)" % v, True), ("f(%s)" % v, True)])
+    return progs
+
+
+def atom_programs():
+    """reduce / scan over a variable that is, or becomes, an atom (a function argument, a rebinding)"""
+    progs = []
+    for op in "+*|&":
+        for adv in "/\\":
+            r = op + adv
+            for atom in ["3", "2.5"]:
+                for e in [r + "a", "1+" + r + "a", "," + r + "a", r + "a*2"]:
+                    progs.append([("a::" + atom, False), (e, True)])
+                progs.append([("f::{,%sx}" % r, False), ("f([1 2 3])", True), ("f(%s)" % atom, True), ("f([4 5])", True)])
+                progs.append([("g::{1+%sx*2}" % r, False), ("g([1 5 2])", True), ("g(%s)" % atom, True)])
+                progs.append([("a::[1 2 3]", False), ("b::2", False), ("s::{%sa*b}" % r, False), ("s()", True),
+                              ("a::" + atom, False), ("s()", True), ("b::[1 2]", False), ("s()", True), ("a::[3 4]", False), ("s()", True)])
+    return progs
+
+
+def huge_literal_programs():
+    """real literals that overflow to infinity: repr() of them is not a Python literal"""
+    progs = []
+    for v in ["1", "2.5", "[1 2 3]"]:
+        for e in ["a+1e999", "a<1e999", "a*1e999", "1e999-a", "a>-1e999", "a-(1e308*10)", "+/a+1e999", "a=1e999", "-1e999+a"]:
+            progs.append([("a::" + v, False), (e, True)])
+        progs.append([("h::{x+1e999}", False), ("h(%s)" % v, True)])
+    return progs
+
+
+def check_targeted(chk, backend, progs, label):
+    normal, stub = run_diff(progs, backend, nproc=2)
+    bad = None
+    for prog, a, b in zip(progs, normal, stub):
+        chk.count("evaluations", len(a))
+        chk.count("targeted_%s_%s" % (label, backend))
+        if a != b and bad is None:
+            bad = {"kind": "compiled != interpreted", "backend": backend, "position": label, "expression": prog[-1][0],
+                   "program": [s for s, _ in prog], "with_compiler": a, "compile_expr_stubbed": b}
+    return bad
+
+
 def replay_findings(chk):
     """step 2: the witnesses of the known findings still fail as the model predicts"""
     gone = []
@@ -1024,7 +1157,12 @@ def run(tier, replay=None):
     bad_corr, bad_prop_i = check_corr(chk, rng, tier)
     bad = check_diff(chk, rng, tier, "numpy")
     bad_t = check_diff(chk, rng, tier, "torch") if tier == "thorough" else None
-    for bp in (bad, bad_t):
+    targeted = []
+    # one process per mode for the twins: a process-wide compilation cache would be shared inside it
+    for backend, progs, label in (("numpy", twin_programs(), "literal_kind_twins"), ("numpy", atom_programs(), "atom_operand"),
+                                  ("numpy", huge_literal_programs(), "huge_literal"), ("torch", atom_programs() + twin_programs()[::7], "atom_operand")):
+        targeted.append(check_targeted(chk, backend, progs, label))
+    for bp in [bad, bad_t] + targeted:
         if bp is not None:
             chk.violation("the value of an expression depends on whether the expression compiler handled it (%s backend, %s position): %s"
                           % (bp["backend"], bp["position"], bp["expression"]), bp)
